@@ -180,11 +180,15 @@ def uses(d, op, target):
 
 
 def targeted(all_sc, d, broken):
-    """Scenarios whose operations involve one of the non-atomic methods first."""
-    def hit(sc):
-        return any(op[0] in d['names'] and any(uses(d, op[0], b) for b in broken if b in d['names'])
-                   for op in sc['writer'] + sc['reader'])
-    return [s for s in all_sc if hit(s)] + [s for s in all_sc if not hit(s)]
+    """Scenarios that call a non-atomic method directly first, then those that reach one, then the rest."""
+    broken = [b for b in broken if b in d['names']]
+
+    def score(sc):
+        ops = [op[0] for op in sc['writer'] + sc['reader'] if op[0] in d['names']]
+        if any(o in broken for o in ops):
+            return 0
+        return 1 if any(uses(d, o, b) for o in ops for b in broken) else 2
+    return sorted(all_sc, key=score)
 
 
 def _first_error(log):
@@ -289,6 +293,21 @@ def main(tier, seed, replay):
             if r['torn']:
                 torn = r['torn']
                 break
+        if broken and torn is None and d is not None and nonatomic:
+            # second pass: step the methods reachable from the non-atomic operations bytecode by bytecode
+            # (a compound read on one source line is invisible at line granularity)
+            fine = sorted({n for n in d['names'] for b in nonatomic if b in d['names'] and uses(d, b, n)})
+            ts2 = time.time()
+            for sc in all_sc:
+                if time.time() - ts2 > budget:
+                    break
+                r = sched.explore(sc, max_preempt=2, budget_s=min(6.0, budget - (time.time() - ts2)),
+                                  opcode_funcs=fine)
+                runs += r['runs']
+                distinct += r['distinct']
+                if r['torn']:
+                    torn = r['torn']
+                    break
     except Exception as e:
         infra.append(f'schedule explorer crashed: {type(e).__name__}: {e}')
         traceback.print_exc()
@@ -376,7 +395,7 @@ def do_replay(path):
         return 1
     sc = obj['scenario']
     serial = sched.serial_outcomes(sc)
-    out, tr = sched.run_schedule(sc, obj['schedule'])
+    out, tr = sched.run_schedule(sc, obj['schedule'], obj.get('opcode_funcs', ()))
     print('scenario:', json.dumps(sc))
     print('schedule:', rle(tr))
     print('reader results:', out[1])
